@@ -13,7 +13,7 @@ import spfiles
 from .base import Prop, exc_name
 from .c05 import C05
 from .c03 import spec_unpack
-from .c06 import FCH1, FOFF, TSAMP, delays_for
+from .c06 import FCH1, FOFF, TSAMP, band_of, delays_for, rereference
 
 BITFACT = {1: 8, 2: 4, 4: 2}
 
@@ -99,7 +99,8 @@ class C07(Prop):
             ffs = [f for f in (1, 2, 4, 7) if C % f == 0 and ((C // f) * nbits) % 8 == 0]
             c["ff"] = rng.choice(ffs)
         if op == "subband":
-            c["dm"] = rng.choice((0.0, 5.0, 20.0, 50.0))
+            c["dm"] = rng.choice((0.0, 5.0, 20.0, 50.0, -20.0, -50.0))
+            c["asc"] = rng.random() < 0.35        # delays negative relative to fch1: ascending band at DM > 0, or DM < 0
             c["nsub"] = rng.choice([k for k in (1, 2, 4, 8) if C % k == 0])
         return c
 
@@ -161,7 +162,8 @@ class C07(Prop):
 
         d = common.tmpdir()
         data = self._data(case)
-        files = spfiles.write_fil_set(d, data, case["nbits"], case["splits"], tsamp=TSAMP, fch1=FCH1, foff=FOFF)
+        fch1, foff = band_of(case)
+        files = spfiles.write_fil_set(d, data, case["nbits"], case["splits"], tsamp=TSAMP, fch1=fch1, foff=foff)
         fil = FilReader(files if len(files) > 1 else files[0])
         prehist.run_pre(fil, case.get("pre"))
         kw = {"gulp": case["g"], "start": case["s"], "nsamps": None if case["none_n"] else case["n"], "quiet": True}
@@ -182,8 +184,8 @@ class C07(Prop):
             elif op == "downsample":
                 outs = [fil.downsample(case["tf"], case["ff"], outfile_name=out, **kw)]
             elif op == "subband":
-                dl = [int(x) for x in np.atleast_1d(fil.header.get_dmdelays(case["dm"]))]
-                if max(dl) >= case["n"] or min(dl) < 0:
+                dl = [int(x) for x in rereference(np.atleast_1d(fil.header.get_dmdelays(case["dm"])))]
+                if max(dl) >= case["n"]:
                     return {"skip": True}
                 outs = [fil.subband(case["dm"], case["nsub"], outfile_name=out, **kw)]
             else:
@@ -230,7 +232,7 @@ class C07(Prop):
                 y = np.floor(y)          # block mean reduced to the (integer) output depth
             return [(nbits, C // ff, y, 1e-6)]
         if op == "subband":
-            dl = delays_for(C, case["dm"])
+            dl = rereference(delays_for(C, case["dm"], *band_of(case)))
             if list(dl) != obs["delays"]:
                 return None
             md, ns = int(dl.max()), case["nsub"]
